@@ -53,6 +53,30 @@ theorem insertMany_rel (ys : List Item) : ∀ (w s : List Item), w.Perm s → No
     obtain ⟨h1, _, h3⟩ := hInsert_rel w s hp hn y
     simpa [suInsertMany] using ih _ _ h1 h3
 
+/-- re-inserting the items of a table with distinct keys into an empty table, in traversal order, gives the same table
+    (`max_load_factor(z)` rebuilds the table this way) -/
+theorem rebuild_aux (xs : List Item) : ∀ acc : List Item, NodupKeys (acc ++ xs) →
+    xs.foldl (fun acc y => (hInsert acc y).1) acc = acc ++ xs := by
+  induction xs with
+  | nil => intro acc _; simp
+  | cons y t ih =>
+    intro acc hn
+    have hn' : NodupKeys (y :: (acc ++ t)) := hn.perm perm_middle.symm
+    have hk : hasKey y.1 acc = false := by
+      rw [hasKey_false_iff]
+      intro e he heq
+      unfold NodupKeys at hn'
+      rw [map_cons, nodup_cons] at hn'
+      apply hn'.1
+      rw [← heq]
+      exact mem_map_of_mem (mem_append_left _ he)
+    have hn2 : NodupKeys ((acc ++ [y]) ++ t) := by simpa using hn
+    have e1 : (hInsert acc y).1 = acc ++ [y] := by rw [hInsert_fst, hk]; simp
+    rw [foldl_cons, e1, ih _ hn2]; simp
+
+theorem rebuild_eq (xs : List Item) (hn : NodupKeys xs) : xs.foldl (fun acc y => (hInsert acc y).1) [] = xs := by
+  simpa using rebuild_aux xs [] (by simpa using hn)
+
 theorem assignFn_eq (x : Item) : (fun e : Item => if e.1 == x.1 then (e.1, x.2) else e) = (fun e => if e.1 == x.1 then x else e) := by
   funext e
   by_cases h : e.1 = x.1
